@@ -821,6 +821,24 @@ func CaseInsensitive(t Tier) []*Grammar {
 		}
 		out = append(out, grs...)
 	}
+	// case FOLDING is not lower-casing: U+017F (long s) folds to s / S but is its own lower case
+	// (round 10, C01-r10-2: literals compared with strings.ToLower instead of strings.EqualFold)
+	foldAtoms := []func() *g.Node{
+		lit("s"), capOf(lit("S")), capOf(lit("\u017f")),
+		func() *g.Node { return capMark(g.LitT("s", "Ident")) },
+		capOf(ref("Ident")),
+	}
+	memoF := map[int][]func() *g.Node{}
+	var fs []func() *g.Node
+	fs = append(fs, terms(1, foldAtoms, memoF)...)
+	fs = append(fs, terms(2, foldAtoms, memoF)...)
+	for _, ci := range [][]string{nil, {"Ident"}} {
+		grs := build(fmt.Sprintf("ci-fold-%d", len(ci)), top(fs), []scheme{schemeShared}, "sS\u017f", 3)
+		for _, gr := range grs {
+			gr.CI = ci
+		}
+		out = append(out, grs...)
+	}
 	return out
 }
 
